@@ -3,6 +3,7 @@ package main
 import (
 	"fmt"
 	"go/ast"
+	"go/parser"
 	"go/constant"
 	"go/token"
 	"go/types"
@@ -32,10 +33,11 @@ type FullSnapshot struct {
 	Locks    map[string]int
 	HavRepo  bool
 	HavExt   bool
+	HavGhost bool
 }
 
 func (st *State) snapshotFull() *FullSnapshot {
-	s := &FullSnapshot{Heap: map[string]*Term{}, Frontier: st.Frontier, Locks: copyLocks(st.Locks), HavRepo: st.HavRepo, HavExt: st.HavExt}
+	s := &FullSnapshot{Heap: map[string]*Term{}, Frontier: st.Frontier, Locks: copyLocks(st.Locks), HavRepo: st.HavRepo, HavExt: st.HavExt, HavGhost: st.HavGhost}
 	for k, v := range st.Heap {
 		s.Heap[k] = v
 	}
@@ -48,7 +50,7 @@ func (env *SpecEnv) oldView() *State {
 		return env.st
 	}
 	v := &State{PC: env.st.PC, Frontier: env.old.Frontier, Heap: map[string]*Term{}, Locals: env.st.Locals, Locks: env.old.Locks,
-		Fresh: env.st.Fresh, Written: map[string]bool{}, HavRepo: env.old.HavRepo, HavExt: env.old.HavExt, Frames: env.st.Frames}
+		Fresh: env.st.Fresh, Written: map[string]bool{}, HavRepo: env.old.HavRepo, HavExt: env.old.HavExt, HavGhost: env.old.HavGhost, Frames: env.st.Frames}
 	for k, t := range env.old.Heap {
 		v.Heap[k] = t
 	}
@@ -577,15 +579,53 @@ func (env *SpecEnv) ghostField(base TV, name string) TV {
 	return TV{Scalar{Select(h, ptrTerm(p))}, gt}
 }
 
-func (env *SpecEnv) ghostGlobal(name string) TV {
+func (env *SpecEnv) ghostType(name string) types.Type {
 	kind := env.ex.Specs.GhostVars[name]
-	srt := SInt
-	var gt types.Type = types.Typ[types.Int]
-	if kind == "bool" {
-		srt, gt = SBool, types.Typ[types.Bool]
+	switch kind {
+	case "", "int":
+		return types.Typ[types.Int]
+	case "bool":
+		return types.Typ[types.Bool]
+	case "string":
+		return types.Typ[types.String]
 	}
-	h := env.st.heapGet("G:$"+name, SArr(SInt, srt))
-	return TV{Scalar{Select(h, Zero)}, gt}
+	e, err := parser.ParseExpr(kind)
+	if err != nil {
+		tool("ghostvar $%s: bad type %q", name, kind)
+	}
+	n := *env
+	for _, pk := range env.ex.P.ByPath {
+		if pk.Types.Name() == env.ex.Specs.GhostPkg[name] {
+			n.pkg = pk.Types
+		}
+	}
+	t := n.resolveType(e)
+	if t == nil {
+		tool("ghostvar $%s: cannot resolve type %q", name, kind)
+	}
+	return t
+}
+
+func (env *SpecEnv) ghostGlobal(name string) TV {
+	gt := env.ghostType(name)
+	cs := comps(gt)
+	ts := make([]*Term, len(cs))
+	for i, c := range cs {
+		h := env.st.heapGet("G:$"+name+c.Suffix, SArr(SInt, c.Sort))
+		ts[i] = Select(h, Zero)
+	}
+	v, _ := unflatten(gt, ts)
+	return TV{v, gt}
+}
+
+func (env *SpecEnv) setGhostGlobal(name string, v TV) {
+	gt := env.ghostType(name)
+	val := env.coerce(v, gt)
+	fl := flatten(val)
+	for i, c := range comps(gt) {
+		h := env.st.heapGet("G:$"+name+c.Suffix, SArr(SInt, c.Sort))
+		env.st.Heap["G:$"+name+c.Suffix] = Store(h, Zero, fl[i])
+	}
 }
 
 func isNilTV(tv TV) bool { return tv.V == nil && tv.T == nil }
@@ -758,6 +798,14 @@ func (env *SpecEnv) evalCall(c *ast.CallExpr) TV {
 				tool("spec: as(x, T)")
 			}
 			return TV{ex.unbox(env.st, iv, t), t}
+		case "substr":
+			sv := env.eval(c.Args[0]).V.(Scalar).T
+			lo := env.eval(c.Args[1]).V.(Scalar).T
+			hi := env.eval(c.Args[2]).V.(Scalar).T
+			if lo.IsInt() && lo.Int.Sign() == 0 && hi == SLen(sv) {
+				return TV{Scalar{sv}, types.Typ[types.String]}
+			}
+			return TV{Scalar{UF("substr", SStr, sv, lo, hi)}, types.Typ[types.String]}
 		case "pow2":
 			k := env.eval(c.Args[0]).V.(Scalar).T
 			if k.IsInt() && k.Int.IsInt64() && k.Int.Int64() >= 0 && k.Int.Int64() < 128 {
@@ -868,6 +916,26 @@ func (env *SpecEnv) evalCall(c *ast.CallExpr) TV {
 			}
 			v, _ := unflatten(t, out)
 			return TV{v, t}
+		case "mapAll":
+			// mapAll(m, k, v, body): every entry (k, v) of map m satisfies body
+			m := env.eval(c.Args[0])
+			mt, ok := under(m.T).(*types.Map)
+			kid, ok1 := c.Args[1].(*ast.Ident)
+			vid, ok2 := c.Args[2].(*ast.Ident)
+			if !ok || !ok1 || !ok2 || len(c.Args) != 4 {
+				tool("spec: mapAll(m, k, v, body)")
+			}
+			var bvs []*Term
+			for _, cp := range comps(mt.Key()) {
+				bvs = append(bvs, Fresh("q_"+kid.Name+cp.Suffix, cp.Sort))
+			}
+			kv, _ := unflatten(mt.Key(), bvs)
+			ref := m.V.(Scalar).T
+			key := ex.mapKey(env.st, kv, mt.Key())
+			has := And(Neq(ref, Zero), ex.mapHas(env.st, m.T, ref, key))
+			inner := env.with(kid.Name, TV{kv, mt.Key()}).with(vid.Name, TV{ex.mapGet(env.st, m.T, ref, key), mt.Elem()})
+			body := inner.evalBoolT(c.Args[3])
+			return TV{Scalar{Forall(bvs, Implies(has, body))}, boolT}
 		case "mapHas":
 			m := env.eval(c.Args[0])
 			k := env.eval(c.Args[1])
